@@ -162,6 +162,7 @@ func (vc *VC) exec(st *State, s ast.Stmt) flow {
 	case *ast.EmptyStmt:
 		return flow{normal: st}
 	case *ast.GoStmt, *ast.SendStmt, *ast.SelectStmt:
+		vc.cutState = st
 		vc.concurrency(s.Pos(), fmt.Sprintf("%T", s))
 		return flow{normal: st}
 	}
@@ -257,8 +258,19 @@ func (vc *VC) execAssign(st *State, x *ast.AssignStmt) {
 			return
 		}
 		l := vc.eval(st, x.Lhs[0])
-		r := vc.eval(st, x.Rhs[0])
 		t := vc.typeOf(x.Lhs[0])
+		if be, ok := ast.Unparen(x.Rhs[0]).(*ast.BinaryExpr); ok && x.Tok == token.ADD_ASSIGN && be.Op == token.SUB && isUnsigned(t) && !vc.bvMode() &&
+			types.Identical(vc.typeOf(be), t) {
+			// x += a - b on unsigned integers: the machine computes (x + ((a - b) mod N)) mod N = (x + a - b) mod N, which is
+			// x + a - b exactly when that value is in range; an intermediate wrap of a - b is benign. One obligation on the result.
+			a := vc.eval(st, be.X)
+			b := vc.eval(st, be.Y)
+			res := vc.wrapArith(st, Val{S: fmt.Sprintf("(- (+ %s %s) %s)", l.S, a.S, b.S), Ty: t, Sort: "Int"}, t, x.Pos())
+			vc.notes = append(vc.notes, fmt.Sprintf("%s: x += a - b on unsigned integers modelled as x + a - b with one range obligation on the result (modular identity)", vc.eng.pos(x.Pos())))
+			vc.assign(st, x.Lhs[0], res)
+			return
+		}
+		r := vc.eval(st, x.Rhs[0])
 		res := vc.binop(st, op, l, r, t, t, x.Pos())
 		vc.assign(st, x.Lhs[0], res)
 		return
@@ -1456,6 +1468,13 @@ func (vc *VC) noteBase(li *loopInfo, key string, base ast.Expr) {
 // concurrency: called at constructs outside the sequential subset. With the cut option the current path is abandoned.
 func (vc *VC) concurrency(pos token.Pos, what string) {
 	if vc.contract != nil && vc.contract.Options["stop-at-concurrency"] != "" {
+		if vc.cutState != nil && !vc.cutAsserted {
+			vc.cutAsserted = true
+			for _, cl := range vc.contract.AtCuts {
+				g := vc.specBool(vc.cutState, nil, cl.Expr, nil, nil)
+				vc.emit(vc.cutState, "assert", fmt.Sprintf("%s/atcut%d", vc.fn.Key, cl.Ord), "cut", g, pos, cl.Src)
+			}
+		}
 		vc.noteAssumption(fmt.Sprintf("CUT in %s: paths that reach goroutines/channels (first at %s) are not verified", vc.fn.Key, vc.eng.pos(pos)))
 		vc.abandonPath = true
 		return
